@@ -137,6 +137,62 @@ func C09(p *core.Program, r *core.Report) {
 		r.Unknown("refuses-must-not-fragment/"+fname(frag), "a bundle flagged must-not-fragment is refused", p.Pos(frag.Pos()), "enumeration failed")
 	}
 
+	// a bundle that already fits is returned as itself: before any fragment is
+	// built, the serialised size of the whole bundle is compared with the limit
+	okFits, fitsWhy := false, "no early return of the bundle itself under len(serialised bundle) <= mtu"
+	for _, rv := range core.ReturnValues(frag, 0) {
+		// the returned list is a one-element slice holding the receiver
+		if !isSingletonOf(rv.V, frag.Params[0]) {
+			continue
+		}
+		for _, cd := range core.DominatingConds(rv.At.Block()) {
+			b, ok := cd.V.(*ssa.BinOp)
+			if !ok {
+				continue
+			}
+			var size, limit ssa.Value
+			switch {
+			case b.Op == token.LEQ && cd.True, b.Op == token.GTR && !cd.True:
+				size, limit = b.X, b.Y
+			case b.Op == token.GEQ && cd.True, b.Op == token.LSS && !cd.True:
+				size, limit = b.Y, b.X
+			default:
+				continue
+			}
+			if limit != ssa.Value(frag.Params[1]) {
+				continue
+			}
+			lc, ok := size.(*ssa.Call)
+			if !ok || core.CalleeName(lc) != "bytes.Buffer.Len" {
+				continue
+			}
+			buf := core.CallRecv(lc)
+			wrote := false
+			for _, wc := range core.CallsTo(frag, bp7+".Bundle.WriteBundle") {
+				if core.Arg(wc, 0) != nil && core.Strip(core.Arg(wc, 0)) == buf && core.MustPassBefore(lc, func(i ssa.Instruction) bool { return i == ssa.Instruction(wc) }) {
+					wrote = true
+				}
+			}
+			if !wrote {
+				fitsWhy = "the size compared with the limit is not the length of the serialised bundle"
+				continue
+			}
+			// the test precedes all fragment construction
+			first := true
+			for _, fc := range core.CallsTo(frag, bp7+".fragmentPrimaryBlock") {
+				if !core.MustPassBefore(fc, func(i ssa.Instruction) bool { return i == ssa.Instruction(lc) }) {
+					first = false
+				}
+			}
+			if first {
+				okFits = true
+			} else {
+				fitsWhy = "fragments can be built before the size test"
+			}
+		}
+	}
+	r.Check(okFits, "fits-as-itself/"+fname(frag), "a bundle whose serialisation is not longer than the limit is returned as itself: Fragment compares the length of the serialised bundle with the limit before it builds any fragment (the per-fragment overhead estimate is pessimistic for the bundle as a whole)", p.Pos(frag.Pos()), "", fitsWhy)
+
 	// DP: fragmentPrimaryBlock
 	fpb := p.Func(bp7, "", "fragmentPrimaryBlock")
 	copies := map[string]bool{}
@@ -233,8 +289,18 @@ func C09(p *core.Program, r *core.Report) {
 	checkOneSortedSlice(p, r, p.Func(bp7, "", "ReassembleFragments"), p.Func(bp7, "", "prepareReassembly"))
 
 	// extension blocks distribution
-	var addInLoop []ssa.CallInstruction
+	// a copy site is a call to AddExtensionBlock or an append to the fragment's block list
+	var copySites []ssa.Instruction
 	for _, c := range core.CallsTo(frag, bp7+".Bundle.AddExtensionBlock") {
+		copySites = append(copySites, c)
+	}
+	core.EachInstr(frag, func(in ssa.Instruction) {
+		if st, ok := in.(*ssa.Store); ok && core.IsField(st.Addr, bp7, "Bundle", "CanonicalBlocks") {
+			copySites = append(copySites, st)
+		}
+	})
+	var addInLoop []ssa.Instruction
+	for _, c := range copySites {
 		l := core.InnermostLoop(core.Loops(frag), c.Block())
 		if l == nil {
 			continue
@@ -249,6 +315,28 @@ func C09(p *core.Program, r *core.Report) {
 		if depth >= 2 {
 			addInLoop = append(addInLoop, c)
 		}
+	}
+	// copies keep their block numbers: AddExtensionBlock assigns the lowest free
+	// number, which renumbers a bundle whose numbers are not contiguous (e.g.
+	// after an unknown block was removed); the reassembled bundle would differ.
+	for _, fn := range []*ssa.Function{frag, p.Func(bp7, "", "ReassembleFragments")} {
+		n := len(core.CallsTo(fn, bp7+".Bundle.AddExtensionBlock"))
+		okNum := n == 0
+		// the payload block built here takes over the number of the original payload block
+		okPayloadNo := false
+		core.EachInstr(fn, func(in ssa.Instruction) {
+			switch x := in.(type) {
+			case *ssa.Store:
+				if core.IsField(x.Addr, bp7, "CanonicalBlock", "BlockNumber") && pathEndsWith(x.Val, "BlockNumber") {
+					okPayloadNo = true
+				}
+			case *ssa.Call:
+				if core.NameIs(core.CalleeName(x), bp7+".NewCanonicalBlock") && pathEndsWith(core.Arg(x, 0), "BlockNumber") {
+					okPayloadNo = true
+				}
+			}
+		})
+		r.Check(okNum && okPayloadNo, "numbering-preserved/"+fname(fn), "blocks copied into a fragment / into the reassembled bundle keep their block numbers (no AddExtensionBlock, which renumbers; the payload block takes the number of the original payload block): otherwise a bundle with non-contiguous numbers does not reassemble byte-identically", p.Pos(fn.Pos()), "", fmt.Sprintf("%d AddExtensionBlock call(s); payload number taken from the original: %v", n, okPayloadNo))
 	}
 	r.Min("extension block copies in Fragment", 1)
 	r.Count("extension block copies in Fragment", len(addInLoop))
@@ -748,4 +836,44 @@ func enumerateFragmentFlag(p *core.Program, frag *ssa.Function) (bool, bool) {
 		}
 	}
 	return true, true
+}
+
+// isSingletonOf: v is []T{x} where x is (a load of the spill of) parameter par.
+func isSingletonOf(v ssa.Value, par *ssa.Parameter) bool {
+	sl, ok := v.(*ssa.Slice)
+	if !ok {
+		return false
+	}
+	a, ok := sl.X.(*ssa.Alloc)
+	if !ok {
+		return false
+	}
+	if n, ok := allocArrayLen(a); !ok || n != 1 {
+		return false
+	}
+	for _, ref := range *a.Referrers() {
+		ia, ok := ref.(*ssa.IndexAddr)
+		if !ok {
+			continue
+		}
+		for _, r2 := range *ia.Referrers() {
+			st, ok := r2.(*ssa.Store)
+			if !ok {
+				continue
+			}
+			if st.Val == ssa.Value(par) {
+				return true
+			}
+			if ld, ok := st.Val.(*ssa.UnOp); ok {
+				if pa, ok := ld.X.(*ssa.Alloc); ok {
+					for _, r3 := range *pa.Referrers() {
+						if s3, ok := r3.(*ssa.Store); ok && s3.Addr == ssa.Value(pa) && s3.Val == ssa.Value(par) {
+							return true
+						}
+					}
+				}
+			}
+		}
+	}
+	return false
 }
